@@ -334,6 +334,11 @@ pub fn run(tier: Tier, seed: u64) -> i32 {
         if l.counters.get("accepted").copied().unwrap_or(0) == 0 {
             return Err("no accepted input".into());
         }
+        for k in ["static_family_runs", "cases_on_every_input_kind"] {
+            if l.counters.get(k).copied().unwrap_or(0) == 0 {
+                return Err(format!("class '{}' is empty", k));
+            }
+        }
         Ok(())
     })
 }
